@@ -894,4 +894,30 @@ example : ∃ zone, zone <:+ ["www", "u"] ∧ DsDenied (envForeign traceInsecure
   insecure_implies_denial (upClean_of_up _ traceInsecureZone rfl (by decide))
     ex_insecure_zone (sec := 0) (by omega) (r := ins' au) (by simp [Msg.sec]) rfl
 
+/-! ### replay of the open finding `C07.DsSignedByOwnerInheritsInsecure` -/
+
+namespace Ex
+/-- `u.` is an unsigned zone that publishes a DNSKEY (`ku`, Insecure: `u. DS` is a validated NSEC denial).  The answer
+to `p.u. DS` carries a forged DS RRset *at `u.`* — data of the signed parent, the root — with an RRSIG that names the
+child `u.` itself as signer.  Record ids: dsX 60, sigX 61. -/
+def dsX : Rec := { name := ["u"], rtype := 43, rid := 60, tag := 3, alg := 15, algSupp := true, digSupp := true }
+def sigX : Rec := { name := ["u"], rtype := 46, rid := 61, covered := 43, signer := ["u"], labels := 1 }
+def qPU : Query := ⟨["p", "u"], 43⟩
+def traceDsByOwner : List (Query × UpOut) :=
+  [(qPU, msg [dsX, sigX]), (⟨["u"], 48⟩, msg [ku]),
+   (⟨["u"], 43⟩, .ok { rcode := 0, an := [], ns := [nsecU, sigN], ad := [] }), (qKr, msg [kr, sigKr]),
+   (⟨["u"], 2⟩, msg [u])]
+end Ex
+
+open Ex in
+/-- **Replay of the open finding `C07.DsSignedByOwnerInheritsInsecure`** (kernel-checked): the signer check accepts
+"owner or ancestor" for every type, so the forged DS RRset at `u.` inherits "Insecure" from the child's key and is
+returned Insecure with no error, although a DS RRset can only be signed by a proper ancestor of its owner.  (It stays
+harmless for the chain: `fetch_ds_records` only uses Secure DS records; `insecure_implies_denial` holds with
+zone = `u.`.) -/
+theorem ds_signed_by_owner_inherits_insecure :
+    dsSignedByOwner traceDsByOwner = true ∧
+    validate (envForeign traceDsByOwner) 27 0 qPU = .ok { rcode := 0, an := [ins' dsX, ins' sigX], ns := [], ad := [] } := by
+  decide
+
 end HickoryVerif.C07
